@@ -1,7 +1,7 @@
-(* Properties/C18.v -- Planning agrees with encoding (the part that is a theorem: shape of the plan). *)
+(* Properties/C18.v -- Planning agrees with encoding (the parts that are theorems: shape of the plan, a plan exists whenever the encoder succeeds). *)
 From Coq Require Import Arith NArith List Bool.
 From DM Require Import Generated.Symbols Generated.ModeTables Model.Outcome Model.SymbolList Model.Planner Model.PlannerRun
-  Proofs.PlanShape.
+  Model.Enc Model.Api Proofs.PlanShape.
 Import ListNotations.
 Local Open Scope N_scope.
 
@@ -34,6 +34,23 @@ Proof.
   destruct (optimize_shape sl (stable_sorter sl) (stable_sorter_incl sl) data 0 Ascii modes res st H) as (A & B & _). split; assumption.
 Qed.
 Print Assumptions C18_encodation_plan.
+
+(* "for every input that can be encoded, the planning API returns a plan": whenever the encoder (no header codeword, same
+   symbol list, mode set and sort) returns a stream, the planning entry point returns Some plan -- the encoder asks exactly
+   this function; and by C11_planner_total the planning API never panics *)
+Theorem C18_plan_exists : forall sorter data symbols modes cw s,
+  encode_data_internal (optimize_fn sorter) data symbols None modes false false = Ok (cw, s) ->
+  exists p st, encodation_plan sorter data symbols modes = Ok (Some p, st).
+Proof.
+  intros sorter data symbols modes cw s. unfold encode_data_internal. cbv zeta. cbn [bind]. unfold codewords.
+  cbn [with_size e_symbols e_data e_modes e_input e_encodation e_new_mode e_cw].
+  destruct symbols as [|s0 sr] eqn:ES; [discriminate|]. rewrite <- ES in *.
+  destruct (_ <? _); [discriminate|]. destruct (upper_limit_for_number_of_codewords _ _); [|discriminate].
+  change (cw_len (with_size data symbols modes false)) with 0. unfold optimize_fn, encodation_plan.
+  destruct (optimize symbols (sorter symbols) data 0 Ascii modes) as [[[p|] st]| |]; cbn [bind lift]; try discriminate.
+  intros _. exists p, st. reflexivity.
+Qed.
+Print Assumptions C18_plan_exists.
 
 (* non-vacuity *)
 Example C18_example :
